@@ -10,6 +10,24 @@ CHECKS = {
  "C01": dict(cat="model_checking", tech="TLA+ model of the connection (LdapConn.tla) checked by TLC + trace validation of the real driver (TraceLdapConn.tla)",
       text="TLC exhausts every interleaving of two operations of any kind (three with fixed roles in thorough) with arbitrary server order and orphan responses against the Routing invariant; seeded concurrent scenarios of the real driver are recorded at hook points and validated as behaviours of the same spec, every returned token bound to what the server sent under the caller's wire ID.",
       note=CONN_NOTE, ref="6/C01, 3.2, 4"),
+ "C02": dict(cat="model_checking", tech="TLA+ transcription of the RFC 4511 request ASN.1 (Ldap4511.tla over Ber.tla/Filter4515.tla/Controls.tla) + sequential handle model (LdapSeq.tla, ModsOneShot); TLC enumerates request models and call histories, the bytes the scripted server read are decoded by TLC (TraceLdapSeq.tla)",
+      text="Every operation x argument shape x 0-2 controls is enumerated by TLC with the PDU the ASN.1 prescribes and compared byte for byte (multisets for SET OF) with what a real Ldap handle wrote to the mock transport; call histories of up to three rounds with every modifier combination check that controls, timeout and search options affect exactly the next operation; random calls are validated in the other direction with DecodeRequest evaluated by TLC.",
+      note="Trusts TLC, the ASN.1 transcription (DecodeRequest(Enc(Request(r))) = r on the spec) and the harness projection. GSSAPI/NTLM binds are feature-gated off and out of scope; with_controls(vec![]) may be sent as an empty element or omitted.", ref="6/C02, 3.3"),
+ "C03": dict(cat="model_checking", tech="TLA+ transcription of the RFC 4511 response ASN.1 (Ldap4511.tla): every response model in minimal and non-minimal definite length forms served to a real call; returned structs and helper outcomes compared; TraceLdapSeq.tla for random responses",
+      text="All eight response kinds x result codes up to 2^31-1 x referrals x controls x extended name/value are enumerated; each model is encoded with every element in 1-4-octet length forms (95 632 encodings in quick) and answered to a real operation; LdapResult/CompareResult/ExopResult/SearchResult fields and success()/non_error()/equal() are compared with the model.",
+      note="Trusts TLC, the ASN.1 transcription (DecodeResponse(AnyEnc(resp)) = resp on the spec) and the harness projection. serverSaslCreds is not publicly observable; non-UTF-8 text and malformed results are C11's.", ref="6/C03"),
+ "C10": dict(cat="model_checking", tech="TLA+ model of SearchStream and the adapter chain (SearchStream.tla: Level(k) semantics of next/finish over direct, EntriesOnly, PagedResults chains); TLC enumerates scripts x call sequences, every behaviour replayed into the real SearchStream; TraceStream.tla for random behaviours",
+      text="Server scripts (entries, references, intermediates, per-item controls, result codes, loss points) x all call sequences over next/finish/state up to length 6 x five adapter chains: TLC checks the item-order, finish-code and state-machine laws on the model and the real stream's every return value and state() is compared; search() as the derived operation; the connection lane adds stream tags from concurrent scenarios.",
+      note="Trusts TLC, the model's reading of the documented call/state diagram, the mock transport. Timeouts on streams are covered in the connection lane (C12); Fresh is unobservable through the public API.", ref="6/C10, 3.3"),
+ "C16": dict(cat="model_checking", tech="TLA+ model of the PagedResults adapter (SearchStream.tla with RFC 2696 paging): TLC enumerates page scripts x page sizes x cookies x call sequences; request log and results of the real adapter compared",
+      text="Result sets over 1-3 pages, empty first page, short pages, error on a middle page, missing paging control, caller-supplied paging control, finish at every position: the SearchRequests the scripted server received (decoded independently: base, scope, filter, attributes, options, other controls, paging size and cookie) and the concatenated entries and final result are compared with the model, alone and chained with EntriesOnly.",
+      note="Trusts TLC, the RFC 2696 reading, the independent request decoder of the harness. A server sending two paging controls in one result is left unspecified.", ref="6/C16"),
+ "C17": dict(cat="fault_enumeration", tech="TLA+ establishment state machine with an adversarial server (Setup.tla: NoCleartextLdap, ReadyImpliesProtected, InjectedNeverParsed, FaultsFail) model-checked; every adversary script played by a real loopback TCP/TLS server against with_settings and the observation validated by TraceSetup.tla",
+      text="All adversary behaviours during establishment (refuse StartTLS with any non-zero code, garbage, close, wrong ID, unsolicited message, cleartext injected before/with/after the StartTLS response, trusted/untrusted/wrong-name certificate, stall, refusal followed by a good handshake) x scheme x verification x connector x timeout: 344 scripts in quick, each a real exchange with certificates generated at run time; every byte received before the handshake is decoded and the outcome class checked.",
+      note="Trusts TLC, OpenSSL's certificate validation (three outcomes realised with real certificates), loopback sockets and real time with generous margins (infrastructure problems are exit 2). tls-rustls is not built.", ref="6/C17, 3.5"),
+ "C18": dict(cat="model_checking", tech="TLA+ decision table of connection setup (Setup.tla Decide + TableLaws) enumerated by TLC over the full cross product; each row instantiated with concrete URLs and settings against real loopback listeners for both APIs; random URLs validated by TraceSetup.tla",
+      text="7 680 rows (scheme x host x port x ldapi path x pre-opened stream x StartTLS x timeout x endpoint) are checked for consistency by TLC and 2 320 observations per quick run record which listener or socket path received the connection or which error class came back, for LdapConnAsync and LdapConn, incl. default ports 389/636; random and mutated URL strings must never panic.",
+      note="Trusts TLC, the url crate, loopback networking (a failed bind of 389/636 counts the rows as skipped). IPv6 literals cannot pass name verification under tls-native (fails closed, noted, not judged).", ref="6/C18, 3.5"),
  "C04": dict(cat="model_checking", tech="TLA+ model with transport faults (LdapConn.tla): TLC safety + liveness (Termination under weak fairness); fault-injected traces of the real code validated by TraceLdapConn.tla",
       text="Server close, reset, undecodable frame, write failure, unbind and last-handle drop are actions of the model enabled at every point; FailFast/NotStuck/UnbindCloses/DeliveredSurvives are checked exhaustively for two operations and Termination under fairness in thorough; the real code gets one fault of each kind at random points of seeded scenarios, with hangs and panics surfacing as events no action explains.",
       note=CONN_NOTE + " 'Never hangs' for the implementation is established up to the virtual-time watchdog horizon.", ref="6/C04"),
